@@ -56,12 +56,20 @@ pub fn monitor(out: &RunOut) -> MonOut {
         if !l.started {
             continue;
         }
-        let (checks, _waits) = seg::checks(h, &l);
+        let (checks, waits) = seg::checks(h, &l);
         for c in &checks {
             if !c.complete {
                 continue;
             }
             check_one(h, c, &mut m);
+        }
+        // R10: a reboot wait that ends without the device going down is followed by Idle before
+        // anything else begins
+        for w in &waits {
+            m.count("R10.reboot_waits");
+            if !w.complete && checks.iter().any(|c| c.start > w.start) {
+                m.viol("C04", "R10", format!("L{}@{}", w.life, w.start), "a check that led to WaitingForReboot was never followed by Idle although the machine went on to its next check".to_string());
+            }
         }
     }
     m
